@@ -63,6 +63,21 @@ CLAIMS.update({
     },
 })
 
+CLAIMS.update({
+    "C05": {
+        "text": "ECDH refusal and delegation structure: _get_shared_secret returns only with both keys present, the private key's curve, the agreed curve and the remote key's curve compared equal and the product compared with INFINITY, it lets only NoKeyError / InvalidCurveError / InvalidSharedSecretError escape and returns x(remote.pubkey.point * own secret multiplier); each of the six bytes/DER/PEM loaders obtains its key from SigningKey.from_* / VerifyingKey.from_* with validation never switched off and stores it through the object loader; the object loaders store a key only when its curve equals the agreed curve and adopt a curve only when unset; no AttributeError/TypeError from an unset curve or key can escape; the secret is padded with number_to_string(secret, field prime). Does not decide that both parties compute equal secrets (commutativity).",
+        "note": "A1-A7; ECDH's three configuration fields are modelled as possibly-None values; key validation itself is C08.",
+        "technique": "abstract interpretation: None/identity typestate, predicate facts at return states, call-argument provenance",
+        "design": "DESIGN.md section 3 C05",
+    },
+    "C08": {
+        "text": "Acceptance structure of public keys: the (length, prefix) dispatch table of from_string computed from the return states equals the specification table (raw: len = V; 04: len = V+1; 06/07: len = V+1; 02/03: len = V/2+1; V = 2*orderlen(p)) with each class reachable and everything else raising MalformedPointError; every returned key passed through from_public_point with the caller's validate_point, which builds Public_key(curve.generator, point, validate_point) and maps InvalidPointError; Public_key.__init__ confines x and y each to [0, p-1] unconditionally and, with verify, establishes the curve equation on (x, y) and cofactor == 1 or n*P == INFINITY (sibling point_is_valid cross-checked); decoded points are only read or forwarded before validation; the compressed and hybrid parity decision tables equal the specification tables and SquareRootError is mapped; the SPKI wrapper compares the algorithm OID, reads the BIT STRING with unused = 0, refuses a raw-length body, consumes or proves empty every DER remainder and leaves validation on; every registry curve declares a cofactor. Does not decide the curve-equation arithmetic, square roots, or that the identity test used by the subgroup check is exact (see C06 known finding).",
+        "note": "A1-A7; point arithmetic is summarised; the subgroup clause inherits C06's known finding (Y = 0 treated as the identity).",
+        "technique": "abstract interpretation: decision tables from return-state facts (length x prefix, parity), must-pass-through call provenance, rest-consumption rule",
+        "design": "DESIGN.md section 3 C08",
+    },
+})
+
 NOT_YET = "check not built yet (framework under construction; design in DESIGN.md section 3)"
 
 
